@@ -218,7 +218,7 @@ def ctor_route(chk, prog):
 
 def elements(chk, prog):
     f = prog.func(WMM + "::WMM.magnetic_field")
-    fa = Facts(f, prog).analyse()
+    fa = Facts(f, prog, inline_private=True).analyse()
     for stmt, st in fa.returns:
         if st is None:
             continue
